@@ -25,6 +25,9 @@ pub fn install_panic_hook() {
                 .location()
                 .map(|l| format!("{}:{}", l.file(), l.line()))
                 .unwrap_or_default();
+            if std::env::var("PV_DEBUG").is_ok() {
+                eprintln!("PANIC {msg} @ {loc}");
+            }
             LAST_PANIC.with(|p| *p.borrow_mut() = Some(format!("{msg} @ {loc}")));
         }));
     });
